@@ -286,8 +286,34 @@ pub fn run_case(case: &mut Case) {
                 continue;
             }
             Err(o) => {
-                // a panic in run_inner is C04's business; nothing to compare against
+                // a panic in run_inner is C04's business; nothing to compare against - but the
+                // real process still has to end in one of its three ways, not with a crash
                 case.rep.inconclusive(&format!("prediction-{}", o.class()));
+                let mut cmd = std::process::Command::new(&exe);
+                cmd.arg0(OsString::from_vec(arg0.clone()));
+                cmd.env_clear();
+                cmd.env(
+                    CHILD_ENV,
+                    format!("{}:{}:{}:run", case.prop, case.seed, case.index),
+                );
+                for a in &argv {
+                    cmd.arg(OsString::from_vec(a.clone()));
+                }
+                if let Ok(out) = cmd.output() {
+                    let status = out.status.code().unwrap_or(-1);
+                    if status != 0 && status != 1 {
+                        case.rep.violation(
+                            "process-abnormal-exit",
+                            "process-boundary",
+                            case.index,
+                            case_json(&b.spec, &argv)
+                                .set("argv0", show_bytes(&arg0))
+                                .set("expected", "status 0 or 1")
+                                .set("child_status", i64::from(status))
+                                .set("child_stderr", show_bytes(&out.stderr[..out.stderr.len().min(300)])),
+                        );
+                    }
+                }
                 continue;
             }
         };
